@@ -526,7 +526,10 @@ class Models:
                 if all(isinstance(x, (str, int, list)) for x in conc) and all(not isinstance(x, list) or all(isinstance(e, str) for e in x) for x in conc):
                     return getattr(s, name)(*conc)
                 if name == "join":
-                    return FmtV(("join", s, tuple(I.concrete_iter(a[0], "join argument"))))
+                    seq = I.iter_seq(a[0])
+                    if isinstance(seq, PyList):
+                        return FmtV(("join", s, tuple(seq.items)))
+                    return FmtV(("join", s, "<symbolic sequence>"))  # text of a message: content irrelevant
                 raise Unsupported(f"str.{name} on symbolic arguments")
             return Builtin("str." + name, f)
         raise Unsupported(f"str.{name}")
@@ -654,6 +657,12 @@ class FmtV:
 
     def pvc_subst(self, pairs):
         return FmtV(subst(self.parts, pairs))
+
+    def pvc_binop(self, I, op, other, swapped):
+        return FmtV(("binop", type(op).__name__, other, self) if swapped else ("binop", type(op).__name__, self, other))
+
+    def pvc_truth(self, I):
+        return True
 
     def __repr__(self):
         return f"Fmt{self.parts!r}"
